@@ -9,6 +9,7 @@ import (
 	"github.com/elementsproject/peerswap/onchain"
 	"github.com/lightningnetwork/lnd/lnrpc"
 	"github.com/lightningnetwork/lnd/lnrpc/chainrpc"
+	"github.com/lightningnetwork/lnd/lnrpc/invoicesrpc"
 	"github.com/lightningnetwork/lnd/lnrpc/routerrpc"
 	"github.com/lightningnetwork/lnd/lnrpc/walletrpc"
 )
@@ -52,3 +53,16 @@ func VerifNewTxWatcher(ctx context.Context, lndClient lnrpc.LightningClient, cha
 
 // VerifSetPubkey sets the node's own identity pubkey (NewClient reads it from GetInfo).
 func (l *Client) VerifSetPubkey(pubkey string) { l.pubkey = pubkey }
+
+// VerifNewPaymentWatcher builds the LND payment watcher over in-process gRPC
+// client fakes instead of a grpc.ClientConn.
+func VerifNewPaymentWatcher(ctx context.Context, lndClient lnrpc.LightningClient, invoicesClient invoicesrpc.InvoicesClient) *PaymentWatcher {
+	ctx, cancel := context.WithCancel(ctx)
+	return &PaymentWatcher{
+		invoicesrpcClient: invoicesClient,
+		lnrpcClient:       lndClient,
+		paymentWatchers:   make(map[string]bool),
+		ctx:               ctx,
+		cancel:            cancel,
+	}
+}
